@@ -9,7 +9,9 @@ PROP = "C19"
 def run(tier, only=None):
     rep = Report(PROP, tier, "CrossHair symbolic execution of evaluate.tree / evaluate.node on EML fragments with symbolic presence flags, word counts and attribute kinds; warnings compared with the restated recommendations; z3 decides each path")
     t = 600 if tier == "quick" else 1500
-    conds = [Cond("harness.h_c19", fn, t) for fn in ("h_ds_text", "h_ds_keywords", "h_ds_parts", "h_party", "h_entity", "h_description")]
+    conds = [Cond("harness.h_c19", fn, t) for fn in ("h_ds_text", "h_ds_keywords", "h_ds_parts", "h_entity", "h_description")]
+    for k, nm in enumerate(("creator", "contact", "associatedParty", "metadataProvider", "personnel")):
+        conds.append(Cond("harness.h_c19", "h_party", t, part=k + 1, label="h_party[%s]" % nm))
     if only:
         conds = [c for c in conds if only in c.label]
     rep.bounds = {"dataset_text": "title of 3..6 words; abstract absent / own text / text spread over para and section/para / para with only an inline child; 18..21 words",
